@@ -1,7 +1,7 @@
 """C16 - all ways of naming a field agree; command-line overrides touch only what's given."""
 from typing import Optional
 
-from cincoconfig import (BoolField, FloatField, IntField, ListField, Schema, SecureField, StringField,
+from cincoconfig import (BoolField, FloatField, IntField, ListField, LogLevelField, Schema, SecureField, StringField,
                          cmdline_args_override, generate_argparse_parser, get_all_fields, item_ref_path)
 from cincoconfig.core import Config, ValidationError
 
@@ -57,6 +57,8 @@ def path_agreement(ka: int, kc: int, ke: int, kb: int, v: int, bottom_up: bool) 
             want.append("a.c")
         sub.d = StringField(default="d")
         want.append("a.d")
+        # reading paths before mounting must not freeze them
+        hold("path", item_ref_path(sub.d) == "d" and item_ref_path(sub.c) == "c", "stand-alone path")
         schema.a = sub
     elif ka == 6:
         want.append("a")
@@ -124,6 +126,8 @@ def _cli_schema():
     schema.quiet = BoolField(default=False)
     schema.tags = ListField(IntField(), default=lambda: [1])
     schema.level_x = IntField(default=4)     # its path is a substring of "sub.level_x"
+    schema.loglevel = LogLevelField(default="info")          # choices + strip + lower-case transforms
+    schema.region = StringField(choices=["us", "eu"], transform_case="lower", transform_strip=True, default="us")
     schema.sub.flag = BoolField(default=True)
     schema.sub.level_x = IntField(default=3)
     schema.sub.deep.pw = SecureField(default="pw0")
@@ -133,7 +137,7 @@ def _cli_schema():
 ORACLE_OPTS = {
     "port": ["--port"], "name": ["--name"], "rate": ["--rate"],
     "debug": ["--debug", "--no-debug"], "quiet": ["--quiet", "--no-quiet"],
-    "level_x": ["--level-x"],
+    "level_x": ["--level-x"], "loglevel": ["--loglevel"], "region": ["--region"],
     "sub.flag": ["--sub-flag", "--no-sub-flag"], "sub.level_x": ["--sub-level-x"],
     "sub.deep.pw": ["--sub-deep-pw"],
 }
@@ -184,8 +188,10 @@ def _override(p_port: int, p_name: bool, p_rate: bool, p_debug: int, p_quiet: in
     if bad_port:
         argv += ["--port", "0"]
     if p_name:
-        argv += ["--name", "alice"]
+        argv += ["--name", "alice", "--loglevel", "DEBUG", "--region", " EU "]   # valid after the fields' transforms
         want["name"] = "alice"
+        want["loglevel"] = "debug"
+        want["region"] = "eu"
     if p_rate:
         argv += ["--rate", "2.25"]
         want["rate"] = 2.25
